@@ -107,6 +107,11 @@ MISC_OPS = [(b"", b"\x0f\xb6", None, 0, None), (b"", b"\x0f\xb7", None, 0, None)
             (b"", b"\xf7", 7, 0, None), (b"", b"\xf6", 6, 0, 0), (b"", b"\xc1", 4, 1, None), (b"", b"\xc1", 5, 1, None), (b"", b"\xd1", 7, 0, None),
             (b"", b"\xd3", 4, 0, None), (b"", b"\x63", None, 0, 1), (b"", b"\x69", None, 4, None), (b"", b"\x6b", None, 1, None),
             (b"", b"\xd9", 0, 0, 0), (b"", b"\xdd", 0, 0, 0), (b"", b"\x0f\xae", 0, 0, 0), (b"", b"\x0f\xc7", 1, 0, 1), (b"", b"\x0f\xc3", None, 0, None)]
+# EVEX (map 0F): (pp, W, opcode, takes vvvv, broadcast allowed); full-vector tuple: disp8 is scaled by the vector length in bytes,
+# or by the element size (4 / 8 by W) under embedded broadcast
+EVEX_OPS = [(0, 0, 0x28, 0, 0), (0, 0, 0x29, 0, 0), (0, 0, 0x10, 0, 0), (0, 0, 0x11, 0, 0), (1, 0, 0x6f, 0, 0), (1, 1, 0x6f, 0, 0), (2, 0, 0x6f, 0, 0),
+            (1, 0, 0x7f, 0, 0), (2, 0, 0x7f, 0, 0), (0, 0, 0x58, 1, 1), (0, 0, 0x59, 1, 1), (1, 1, 0x58, 1, 1), (1, 0, 0xfe, 1, 1), (1, 1, 0xd4, 1, 1),
+            (1, 0, 0xef, 1, 1), (1, 1, 0xef, 1, 1)]
 # lock-able read-modify-write forms: (opcode bytes, /digit or None, immediate size)
 LOCK_OPS = [(b"\x01", None, 0), (b"\x29", None, 0), (b"\x31", None, 0), (b"\x21", None, 0), (b"\x09", None, 0), (b"\xff", 0, 0), (b"\xff", 1, 0),
             (b"\x0f\xb1", None, 0), (b"\x0f\xc1", None, 0), (b"\x87", None, 0), (b"\x83", 0, 1), (b"\xf7", 3, 0), (b"\xf7", 2, 0), (b"\x0f\xab", None, 0)]
@@ -168,7 +173,8 @@ class C19(PropBase):
             "(incl. the general-protection-fault shapes), and an ENCODED amd64 instruction at rip (mov/add/sub/cmp/xor/and/or/"
             "test/inc/dec/lea/push/pop/call/jmp with every ModRM/SIB memory form incl. rip-relative, absolute, 32-bit addressing; "
             "call/jmp reg, ret / ret imm / retf / iret, jcc, call/jmp imm, nop; string instructions with rep/repne/0x66/REX.W, segment overrides, lock RMW forms, "
-            "legacy SSE, VEX-encoded AVX, 49 further one-memory-operand forms, mov moffs64, push imm, instructions with unrecorded implicit accesses) "
+            "legacy SSE, VEX-encoded AVX, EVEX-encoded AVX-512 (compressed disp8, broadcast, write masks), 49 further one-memory-operand forms, mov moffs64, "
+            "push imm, instructions with unrecorded implicit accesses) "
             "together with its decoded form for the model; scenarios: zero base "
             "register, zero index only, zero call target, accessed address in the non-canonical range one high bit from a "
             "mapped one, operand registers one bit from a region, power-of-two addresses. Addresses are one bit away from "
@@ -199,7 +205,7 @@ class C19(PropBase):
         "extraction ExtrOcamlBasic only; ocaml/c19/main.ml; harness/src/bin/c19.rs (hook minidump_processor::verif_hooks)",
     ]
     assumptions = ["instruction decoding (yaxpeax) is not modelled: theorems hold for every analysis result; P cases with planted bytes and Q cases the generator "
-                   "cannot decode are judged by the oracle alone (outside the generated decoded forms: EVEX, XOP/3DNow!, VSIB gathers, far call/jmp through memory, "
+                   "cannot decode are judged by the oracle alone (outside the generated decoded forms: XOP/3DNow!, VSIB gathers, opmask moves, far call/jmp through memory, "
                    "other x87 forms, invalid / truncated encodings)",
                    "contexts in generated dumps have all registers valid (theorems cover unreadable registers; 32-bit addressing exercises the unreadable-operand path)"]
     manifest = {
@@ -297,7 +303,7 @@ class C19(PropBase):
             flags = rng.choice([0, 1, 2, 0x80, 0x80, 5, 0xfffffffa])
         cls = rng.choice(["mem"] * 8 + ["mem32", "callmem", "jmpmem", "pushmem", "popmem", "callreg", "jmpreg", "pushreg", "popreg",
                                         "ret", "jcc", "callimm", "jmpimm", "nop",
-                                        "str", "str", "seg", "seg", "lock", "sse", "sse", "avx", "avx", "misc", "misc", "misc", "moffs", "pushimm", "noaccess"])
+                                        "str", "str", "seg", "seg", "lock", "sse", "sse", "avx", "avx", "misc", "misc", "misc", "moffs", "pushimm", "noaccess", "evex", "evex"])
         if scen == 1:
             form = rng.choice(["base", "base_index"])
         elif scen == 2:
@@ -363,6 +369,28 @@ class C19(PropBase):
             pp, o2, usev = rng.choice(AVX_OPS)
             enc, dec = enc_general(rng, b"", bytes([o2]), None, 0, reg, form, base, index, scale_log, disp, 0, rng.chance(1, 5),
                                    vex=(pp, rng.below(16) if usev else 0, rng.below(2)))
+        elif cls == "evex":
+            # AVX-512: 62 P0 P1 P2 opcode modrm ..; a disp8 is compressed (scaled by the vector length, or the element size under broadcast)
+            pp, w, o2, usev, bcast = rng.choice(EVEX_OPS)
+            ll = rng.below(3)
+            b = 1 if bcast and rng.chance(1, 3) else 0
+            n = (8 if w else 4) if b else (16 << ll)
+            f32_ = rng.chance(1, 5)
+            e, d0 = enc_instr(0, None, 0, reg, form, base, index, scale_log, disp, f32_)
+            rex, tail = e[0], e[2:]
+            r, x, bb = (rex >> 2) & 1, (rex >> 1) & 1, rex & 1
+            vvvv = rng.below(16) if usev else 0
+            p0 = ((r ^ 1) << 7) | ((x ^ 1) << 6) | ((bb ^ 1) << 5) | (1 << 4) | 1
+            p1 = (w << 7) | ((vvvv ^ 15) << 3) | (1 << 2) | pp
+            aaa = rng.choice([0, 0, 1, 2])
+            p2 = (ll << 5) | (b << 4) | (1 << 3) | aaa
+            enc = bytes([0x62, p0, p1, p2, o2]) + tail
+            disp8 = form in ("base", "base_index") and not f32_ and -128 <= disp <= 127 and (disp != 0 or (base & 7) == 5)
+            dec = (d0[0], d0[1], d0[2], d0[3] * n) if disp8 else d0
+            if o2 in (0x29, 0x11, 0x7f) and aaa and form != "abs":
+                # a store under a write mask: yaxpeax hands out a *Masked memory operand variant (for every operand with a
+                # register) that MemoryOperandInfo::try_from_operand does not know: no access and no register is recorded
+                dec, form = None, None
         elif cls == "misc":
             legacy, ob, digit, imm, wsel = rng.choice(MISC_OPS)
             enc, dec = enc_general(rng, legacy, ob, digit, rng.below(2) if wsel is None else wsel, reg, form, base, index, scale_log, disp,
